@@ -190,4 +190,31 @@ def groupShapeIssues (defs : Str → Option Bool) (fold : Str → Str) (g : List
 def validateOnsetOffset (defs : Str → Option Bool) (fold : Str → Str) (groups : List (List Child)) :
     List ShapeErr := groups.flatMap (groupShapeIssues defs fold)
 
+/-! ### which rows take part in the event history
+`SpreadsheetValidator._run_checks` (marks a row invalid) and `_run_onset_checks` (skips the time points
+whose original row is invalid). -/
+
+/-- severity of a cell issue of the row-by-row checks -/
+inductive Sev where
+  | warning | error
+deriving Repr, DecidableEq, Inhabited
+
+/-- `check_for_any_errors(new_column_issues)`: the row is invalid iff one of its cell issues has
+error severity (warnings, kept in the list under the default error handler, do not count) -/
+def rowInvalid (iss : List Sev) : Bool := iss.any (· == .error)
+
+/-- `_run_onset_checks`: the time points whose original row is in `invalid_original_rows` are skipped.
+`cellIssues i` = severities of the cell issues of file row `i`. -/
+def keptPoints (rows : List Row) (cellIssues : Nat → List Sev) : List TRow :=
+  (timePoints rows).filter fun tp => !rowInvalid (cellIssues tp.orig)
+
+/-- temporal issues of a file: (original row index, kind), in report order -/
+def fileErrors (fold : Str → Str) (rows : List Row) (cellIssues : Nat → List Sev) : List (Nat × Err) :=
+  let tps := keptPoints rows cellIssues
+  (run fold [] 0 (tps.map (·.markers))).map fun x => ((tps[x.1]?.map (·.orig)).getD 0, x.2.2)
+
+/-- one more cell issue on row `i` -/
+def addIssue (cellIssues : Nat → List Sev) (i : Nat) (s : Sev) : Nat → List Sev :=
+  fun j => if j = i then s :: cellIssues j else cellIssues j
+
 end HedVerif.Temporal
